@@ -65,8 +65,35 @@ def strategy(tier):
     return gen_util.weighted((4, tables), (2, relabel), (1, progs))
 
 
+def _zero_width_tables():
+    import linemodels
+    out = []
+    for fmt in ("lnotab37", "lnotab38", "lnotab39"):
+        for d1 in (127, -128, 126, -127, 254, -256):
+            for d2 in (255, -255, 256, -256, 257, -257, 381, -382, 128, -129, 127, -127, 1, -1):
+                for extra in (0, 1):
+                    first = 1000
+                    prog = [(5, first, False), (1, first + d1, True)]
+                    if extra:
+                        prog.append((1, first + d1 + d2, True))
+                        prog.append((3, first + d1 + d2 + d1, False))
+                    else:
+                        prog.append((3, first + d1 + d2, False))
+                    table = linemodels.model_lnotab(prog, first, fmt[-2:])
+                    if table is None:
+                        continue
+                    groups = []
+                    for u, _l, d in prog:
+                        if not d:
+                            groups += [1] * u
+                    out.append({"fmt": fmt, "table": table.hex(), "first": first, "groups": groups,
+                                "intended": gen_line.intended_lnotab(prog, first), "aligned": True, "prog": [list(p) for p in prog],
+                                "_label": "zero_width_pairs"})
+    return out
+
+
 def fixed_cases(tier):
-    out = list(gen_source.example_cases())
+    out = list(gen_source.example_cases()) + _zero_width_tables()
     # every example also relabelled with a few fixed boundary maps
     maps = [[1, 128, 1, 129, 2, 257, 3], [1000, 873, 872, 1127, 1128, 1], [1, 2, 3, 130, 131, 132], [5, 5, 5, 5], [300, 46, 45, 44]]
     for c in gen_source.example_cases()[:120:3]:
